@@ -3,7 +3,7 @@
    schedule) and everything the harness observed (per-instance call log and result, version table and
    catalog afterwards) as terms of these types; [check_case] recomputes the observables with the model
    and returns the ids of the sub-checks that differ.  No proofs here. *)
-From VV.MIG Require Export Spec.
+From VV.MIG Require Export Spec MigratorX.
 
 (* ---------- boolean equalities ---------- *)
 Fixpoint list_eqb {A} (f : A -> A -> bool) (a b : list A) : bool :=
@@ -74,21 +74,24 @@ Record mig_case := mkCase {
   k_refcats : list (list string * string);
   k_obs_insts : list (option outcome * list ev);
   k_obs_mid : list obs_db;                           (* sequential runs: database after each instance *)
-  k_obs_db : obs_db
+  k_obs_db : obs_db;
+  k_src_raw : list string                           (* the raw_sql scripts of the history, as written in the migration files *)
 }.
 
-Definition inst_obs (p : pinst) : option outcome * list ev := (i_res (p_inst p), i_log (p_inst p)).
+Definition inst_obs (p : pinst_x) : option outcome * list ev := (i_res (px_inst p), i_log (px_inst p)).
 Definition inst_obs_eqb := pair_eqb (opt_eqb outcome_eqb) (list_eqb ev_eqb).
 
-Definition model_system (c : mig_case) : system :=
-  steps (k_opts c) (k_ms c) (k_sched c) (init_sys_faults (k_faults c) (k_init c)).
+(* the extended semantics (MigratorX.v); equal to [steps] / [run] / [crash] on histories without transaction
+   control inside statements (Proofs/BridgeP.v) *)
+Definition model_system (c : mig_case) : system_x :=
+  steps_x (k_opts c) (k_ms c) (k_sched c) (init_sys_x (k_faults c) (k_init c)).
 
 (* sequential composition of [run] (the function the C09/C10 theorems speak about) *)
 Fixpoint seq_runs (o : opts) (ms : list mig) (fs : list (list nat)) (d : dbstate)
   : list ((option outcome * list ev) * dbstate) :=
   match fs with
   | [] => []
-  | f :: r => let ci := run f o ms d in
+  | f :: r => let ci := run_x f o ms d in
               ((i_res (snd ci), i_log (snd ci)), fst ci) :: seq_runs o ms r (fst ci)
   end.
 
@@ -103,14 +106,14 @@ Definition check_case (c : mig_case) : list nat :=
   match k_crash c with
   | Some j =>
       (* 8/9: committed database after a kill before call j *)
-      map (fun n => n + 5) (db_matches (k_dry c) (k_refcats c) (crash j (k_opts c) (k_ms c) (k_init c)) (k_obs_db c))
+      map (fun n => n + 5) (db_matches (k_dry c) (k_refcats c) (crash_x j (k_opts c) (k_ms c) (k_init c)) (k_obs_db c))
   | None =>
       let s := model_system c in
-      let mo := map inst_obs (s_insts s) in
+      let mo := map inst_obs (sx_insts s) in
       (if list_eqb (opt_eqb outcome_eqb) (map fst mo) (map fst (k_obs_insts c)) then [] else [1]) ++
       (if list_eqb (list_eqb ev_eqb) (map snd mo) (map snd (k_obs_insts c)) then [] else [2]) ++
-      db_matches (k_dry c) (k_refcats c) (s_db s) (k_obs_db c) ++
-      (if all_finished s then [] else [5]) ++
+      db_matches (k_dry c) (k_refcats c) (sx_db s) (k_obs_db c) ++
+      (if all_finished_x s then [] else [5]) ++
       (if k_sequential c then
          let rs := seq_runs (k_opts c) (k_ms c) (k_faults c) (k_init c) in
          (if list_eqb inst_obs_eqb (map fst rs) (k_obs_insts c) then [] else [6]) ++
@@ -130,13 +133,14 @@ Definition mismatches (l : list mig_case) : list (nat * list nat) := mismatches_
 
 (* for replay files: what the model says *)
 Definition model_view (c : mig_case) :=
-  let s := model_system c in (map inst_obs (s_insts s), vt_obs (s_db s), d_applied (s_db s)).
+  let s := model_system c in (map inst_obs (sx_insts s), vt_obs (sx_db s), d_applied (sx_db s)).
 
 
 (* theorem hypotheses / classifiers evaluated on a case (bit set, decoded by checks/migrun.py):
    1 ascending, 2 versions_u32, 4 rows_u32, 8 recorded at some version k (at_version), 16 id_conflict,
    32 every compiled version < 2^31 (classifier of the repaired finding C09-version-beyond-i32-reapplied),
-   64 versions_distinct *)
+   64 versions_distinct, 128 some raw_sql script of the history ends the surrounding transaction (breaks_out),
+   256 some compiled statement contains transaction control *)
 Definition recorded_k (d : dbstate) : N :=
   match max_version (db_rows d) with Some m => Z.to_N m | None => 0%N end.
 Definition flag_code (c : mig_case) : nat :=
@@ -144,4 +148,6 @@ Definition flag_code (c : mig_case) : nat :=
   (if rows_u32 (k_init c) then 4 else 0) + (if at_version (recorded_k (k_init c)) (k_init c) then 8 else 0) +
   (if id_conflict (k_ms c) (k_init c) then 16 else 0) +
   (if forallb (fun m => N.ltb (m_version m) 2147483648) (k_ms c) then 32 else 0) +
-  (if versions_distinct (db_rows (k_init c)) then 64 else 0).
+  (if versions_distinct (db_rows (k_init c)) then 64 else 0) +
+  (if existsb breaks_out (k_src_raw c) then 128 else 0) +
+  (if existsb (fun m => existsb has_ctl (stmts_of (k_opts c) m)) (k_ms c) then 256 else 0).
